@@ -80,6 +80,35 @@ func init() {
 				evals++
 			}
 			tr.Emit(M{"e": "end"})
+			// the root's own identity asked for again, by the spelling it was created with, on a root whose sanitizer rewrites
+			// that spelling (the registry finds the root in whatever shard the request hashes to)
+			if round%3 == 0 {
+				vc := tally.ValidCharacters{Ranges: tally.AlphanumericRange, Characters: tally.UnderscoreCharacters}
+				so := &tally.SanitizeOptions{NameCharacters: vc, KeyCharacters: vc, ValueCharacters: vc, ReplacementCharacter: '_'}
+				raw := map[string]string{"data-center": "dc-1"}
+				aroot, _ := tally.VerifNewRootScope(tally.ScopeOptions{Tags: map[string]string{"data-center": "dc-1"}, CachedReporter: &recCached{}, SanitizeOptions: so, OmitCardinalityMetrics: true}, 0, 16)
+				tr.Emit(M{"e": "scn", "mod": 0, "x": rounds + round + 1})
+				var same [4]bool
+				var ag sync.WaitGroup
+				for w := 0; w < 4; w++ {
+					w := w
+					ag.Add(1)
+					go func() {
+						defer ag.Done()
+						same[w] = aroot.Tagged(raw) == aroot
+					}()
+				}
+				ag.Wait()
+				tr.Emit(M{"e": "got", "t": "main", "k": "scope", "id": "root", "so": 1, "obj": 1})
+				for w := 0; w < 4; w++ {
+					o := 1
+					if !same[w] {
+						o = 2 + w
+					}
+					tr.Emit(M{"e": "got", "t": "main", "k": "scope", "id": "root", "so": 1, "obj": o})
+				}
+				tr.Emit(M{"e": "end"})
+			}
 		}
 		tr.Close()
 		writeMeta(cm.out, M{"cases": rounds, "execs": rounds, "events": tr.N, "evals": evals, "distinct": 4, "samples": []interface{}{M{"goroutines": 6, "rounds": rounds}}})
